@@ -1032,8 +1032,13 @@ fn exec_userfunc_or_array_or_macro(song: &mut Song, t: &Token) -> bool {
     // eval function
     let tokens = song.functions[func_id].tokens.clone();
     let tmp_break_flag = song.flags.break_flag;
+    // the statements of the body are statements even when the call itself stands inside an expression:
+    // a call made as a statement there must not leave its value on the stack
+    let tmp_needs_return_value = song.flags.function_needs_return_value;
+    song.flags.function_needs_return_value = false;
     // println!("func_body={:?}", tokens);
     let eval_result = exec(song, &tokens);
+    song.flags.function_needs_return_value = tmp_needs_return_value;
     song.flags.break_flag = tmp_break_flag;
     let vars = song.variables_stack_pop();
     if song.flags.function_needs_return_value {
